@@ -467,17 +467,23 @@ class Client(ClientLike):
         Args:
             msg_list (Iterable[int]): A list of numeric message IDs to subscribe to
         """
-        msg_list = list(msg_list)  # cast arbitrary iterable to list
-        for mt in msg_list:
+        # cast arbitrary iterable to list, without duplicates
+        msg_list = list(dict.fromkeys(msg_list))
+        for mt in list(msg_list):
             if mt in self.subscribed_types:
                 warn(
                     f"Message ID {mt} is already subscribed, ignored from subscription_context"
                 )
                 msg_list.remove(mt)
 
+        # paused types go back to paused, not to unsubscribed, when the context exits
+        was_paused = [mt for mt in msg_list if mt in self.paused_subscribed_types]
+
         self.subscribe(msg_list)
         yield
-        self.unsubscribe(msg_list)
+        self.unsubscribe([mt for mt in msg_list if mt not in was_paused])
+        if was_paused:
+            self.pause_subscription(was_paused)
 
     @contextmanager
     def paused_subscription_context(self, msg_list: Iterable[int]):
@@ -489,8 +495,9 @@ class Client(ClientLike):
             msg_list (Iterable[int]): A list of numeric message IDs to temporarily unsubscribe to
         """
 
-        msg_list = list(msg_list)  # cast arbitrary iterable to list
-        for mt in msg_list:
+        # cast arbitrary iterable to list, without duplicates
+        msg_list = list(dict.fromkeys(msg_list))
+        for mt in list(msg_list):
             if mt not in self.subscribed_types:
                 warn(
                     f"Message ID {mt} is not subscribed, ignored from paused_subscription_context"
